@@ -137,6 +137,9 @@ def main(argv=None):
             rule=getattr(mod, "RULE", ""),
             samples=samples,
             distinct_run_shapes=len(shapes),
+            distinct_state_digests=int(cov.pop("__distinct_state_digests", 0)),
+            distinct_state_digests_note="distinct digests of learned models / outputs / draw streams reached "
+                                        "across the batch (capped at 200000)",
             runs_per_hour=int(rate),
             stopped_by_wall_budget=bool(stopped_early),
             counters=dict(sorted(cov.items())),
